@@ -19,7 +19,7 @@ RULE = ("lroo: every binary series of length 1..16 (thorough: 1..20) enumerated 
         "and through DataArray.hdc.algo.lroo(); generated run-length-encoded series up to 1000 steps (runs "
         "of 200..1000 ones at start/middle/end), series over {0,1,2,255}. croo: every binary series of length "
         "n<=6 under every permutation of the stored time order, generated permutations up to n=60, dims in "
-        "any order. Oracle: plain run-length model. Non-trivial: the series holds a run of >=2 ones (lroo) / "
+        "any order; generated histories on ONE array object (time labels re-assigned in place, values overwritten, croo/lroo queried in between). Oracle: plain run-length model. Non-trivial: the series holds a run of >=2 ones (lroo) / "
         "the stored order is not chronological or the latest step is 1 (croo); distinct by content hash.")
 ASSUME = ["numpy, xarray and pandas sort/indexing primitives used to build inputs are correct",
           "croo is claimed for 0/1 valued arrays with unique timestamps only"]
@@ -107,7 +107,39 @@ def sub_croo(case):
             "croo<=lroo")
 
 
-SUBS = {"lroo_kernel": sub_lroo_kernel, "lroo_accessor": sub_lroo_accessor, "croo": sub_croo}
+def sub_history(case):
+    """One DataArray object, a history of in-place edits (time labels re-assigned, values overwritten) and queries: every croo() /
+    lroo() answer must describe the array as it is at that moment (no state may survive from an earlier call)."""
+    nt = case["nt"]
+    base = pd.date_range("2001-03-01", periods=nt, freq="10D")
+    vals = np.array(case["pixels"], dtype="int64")            # (npix, nt) in stored order
+    order = list(range(nt))                                      # stored position k holds chronological rank order[k]
+    da = xr.DataArray(vals.T.copy().reshape(nt, vals.shape[0], 1), dims=("time", "y", "x"), coords={"time": base})
+    for op in case["ops"]:
+        kind = op[0]
+        if kind == "set_time":
+            order = list(op[1])
+            da["time"] = base[np.array(order)]
+        elif kind == "assign_time":
+            order = list(op[1])
+            da = da.assign_coords(time=base[np.array(order)])
+        elif kind == "set_values":
+            px, pos, v = op[1] % vals.shape[0], op[2] % nt, op[3]
+            vals[px, pos] = v
+            da.values[pos, px, 0] = v
+        elif kind in ("croo", "lroo"):
+            res = call("hdc.algo.%s after %d operations" % (kind, case["ops"].index(op)), lambda: getattr(da.hdc.algo, kind)() if kind == "croo"
+                       else da.astype("uint8").hdc.algo.lroo())
+            got = res.values.reshape(vals.shape[0])
+            for i in range(vals.shape[0]):
+                chrono = [int(vals[i, order.index(r)]) for r in range(nt)]
+                want = ref_croo(chrono) if kind == "croo" else ref_lroo([int(v) for v in vals[i]])
+                req(int(got[i]) == want, "%s on the same array after the history %s: pixel stored %s with time order %s -> %d, model %d" % (
+                    kind, [o[0] for o in case["ops"][:case["ops"].index(op) + 1]], fmt(vals[i], 12), fmt(order, 12), int(got[i]), want),
+                    "%s stale after in-place edit" % kind)
+
+
+SUBS = {"lroo_kernel": sub_lroo_kernel, "lroo_accessor": sub_lroo_accessor, "croo": sub_croo, "history": sub_history}
 
 
 # ---- search ---------------------------------------------------------------------------------
@@ -237,3 +269,21 @@ def run(ctx):
         sub_croo(case)
 
     ctx.given("croo", croo_strategy(), ctx.n(150, 2500), fn=f_croo)
+
+    # 6. histories on one array object
+    def hist():
+        return st.integers(2, 8).flatmap(lambda n: st.builds(
+            lambda px, ops: {"nt": n, "pixels": px, "ops": [list(o) for o in ops]},
+            st.lists(st.lists(st.sampled_from([0, 1, 1]), min_size=n, max_size=n), min_size=1, max_size=3),
+            st.lists(st.one_of(st.tuples(st.just("croo")), st.tuples(st.just("lroo")),
+                               st.tuples(st.sampled_from(["set_time", "set_time", "assign_time"]), st.permutations(list(range(n)))),
+                               st.tuples(st.just("set_values"), st.integers(0, 2), st.integers(0, 7), st.sampled_from([0, 1]))),
+                     min_size=2, max_size=12)))
+
+    def f_h(case):
+        kinds = [o[0] for o in case["ops"]]
+        ctx.rec.case("history", case, nontrivial=("croo" in kinds or "lroo" in kinds) and ("set_time" in kinds or "set_values" in kinds),
+                 cls="ops=%d" % len(kinds))
+        sub_history(case)
+
+    ctx.given("history", hist(), ctx.n(300, 5000), fn=f_h)
